@@ -778,6 +778,59 @@ explore(int depth)
 	}
 }
 
+/* C12 linear sweep: for every limit N one history: fill to N, one more (must not run), one exit, one more (must run) */
+static void
+sweep_limit(int N)
+{
+	char req[1024];
+	struct hx_reply_s rp;
+	size_t o = (size_t)snprintf(req, sizeof(req),
+		"BEGIN:VCALENDAR\nVERSION:2.0\nMETHOD:PUBLISH\nBEGIN:VEVENT\nUID:X\nSUMMARY:job\nDTSTART:20300101T000001Z\n"
+		"RRULE:FREQ=SECONDLY;COUNT=80\nX-ECHS-MAX-SIMUL:%d\nEND:VEVENT\nEND:VCALENDAR\n", N);
+	char shape[64];
+
+	snprintf(hist, sizeof(hist), "ADD(X, SECONDLY x80, MAX-SIMUL:%d) then %d+1 on-time ticks, EXIT(oldest), one more tick", N, N);
+	vd_desc("%s", hist);
+	snprintf(shape, sizeof(shape), "sweep/N=%s", N == 1 ? "1" : N == 2 ? "2" : N < 62 ? "3..61" : "62");
+	hx_request(&rp, 1000, req, o);
+	if (rp.nsucc != 1) {
+		report("reply", shape, "task with MAX-SIMUL:%d refused", N);
+		return;
+	}
+	for (int k = 1; k <= N + 1; k++) {
+		int before = hx_nspawns;
+		hx_tick(HX_T0 + k + 0.001);
+		VT->transitions++;
+		if (hx_nspawns != before + 1) {
+			report("spawn-count", shape, "tick %d of %d: %d spawns instead of 1", k, N + 1, hx_nspawns - before);
+			return;
+		}
+		int want_nd = k > N;
+		if (hx_spawns[hx_nspawns - 1].nd != want_nd) {
+			report("spawn-mode", shape, "limit %d, %d jobs alive: occurrence %d was started %s", N, k - 1 < N ? k - 1 : N, k,
+			       hx_spawns[hx_nspawns - 1].nd ? "with the no-run flag" : "for real");
+			return;
+		}
+	}
+	if (hx_nchld != N) {
+		report("run-unsupervised", shape, "%d jobs run for real, the daemon watches %d", N, hx_nchld);
+		return;
+	}
+	hx_exit_child(0, 0);
+	VT->transitions++;
+	{
+		int before = hx_nspawns;
+		hx_tick(HX_T0 + N + 2 + 0.001);
+		VT->transitions++;
+		if (hx_nspawns != before + 1 || hx_spawns[hx_nspawns - 1].nd) {
+			report("spawn-mode", shape, "limit %d, one of %d jobs has exited: the next occurrence was %s", N, N,
+			       hx_nspawns == before ? "not started" : "started with the no-run flag");
+			return;
+		}
+	}
+	VT->traces++;
+}
+
 static void
 enumerate(void)
 {
@@ -809,6 +862,32 @@ enumerate(void)
 	hist[0] = '\0';
 
 	hx_drift = strtod(vd_opt("drift", "0"), NULL);
+	if (!strcmp(vd_opt("mode", "explore"), "sweep")) {
+		for (int N = 1; N <= 62; N++) {
+			if (!vd_next()) continue;
+			vd_shape("sweep/N=%d", N);
+			memset(VT, 0, sizeof(*VT));
+			fflush(stdout);
+			pid_t c = fork();
+			if (c == 0) {
+				prctl(PR_SET_PDEATHSIG, SIGKILL);
+				sweep_limit(N);
+				fflush(stdout);
+				_exit(0);
+			}
+			int st;
+			while (waitpid(c, &st, 0) < 0 && errno == EINTR);
+			if (!(WIFEXITED(st) && WEXITSTATUS(st) == 0)) {
+				vd_viol("crash/sweep", "daemon image died in the sweep for N=%d (status %#x)", N, st);
+			}
+			vd_count("states", VT->transitions + 1);
+			vd_count("transitions", VT->transitions);
+			vd_count("traces", VT->traces);
+			vd_nontrivial();
+			vd_sample("MAX-SIMUL:%d: %d real starts, one refused, one exit, one real start", N, N);
+		}
+		return;
+	}
 	/* one case per pair of first two events: the subtree below it is explored by forked images */
 	n1 = enabled(e1, 96);
 	for (int i = 0; i < n1; i++) {
